@@ -1,5 +1,1010 @@
-//! Translator targets owned by property C05.
-#[allow(unused_imports)]
-use super::{Gen, Target};
+//! Translator targets owned by property C05 (values cross the host boundary
+//! unchanged).
+//!
+//! `boundary` → `Generated/BoundaryTables.lean`:
+//!  * `LayoutBuilder::new/add/finish`, `Layout::union` (src/runtime/layout.rs)
+//!    as Lean functions over `RotoV.Boundary.Layout` (straight-line arithmetic
+//!    subset: `let`, field assignment, `max`, `next_multiple_of`, `+`);
+//!  * `Primitive::layout`, `IntSize::int`, `FloatSize::int`, the enum tables
+//!    of `default_types()` (src/typechecker/types.rs);
+//!  * variant order and `#[repr(u8)]` of `RotoOption`, `RotoResult`, `Verdict`
+//!    (src/value/{option,result,verdict}.rs);
+//!  * `AsParam` of every `impl Value` and the `simple_value!` list
+//!    (src/value/mod.rs);
+//!  * the shape of `Pool::layout_of` (constants it uses; its recursion is
+//!    checked fragment by fragment) and the arms of `Pool::is_reference_type`
+//!    (src/mir/ty.rs);
+//!  * steps and primitive table of `Lowerer::lower_type`, the zero-sized
+//!    filters of `ir_signature`, `call`, `call_runtime`, the `return_ptr` rule
+//!    (src/lir/lower.rs);
+//!  * `cranelift_type`, the order of hidden parameters in
+//!    `declare_function` / `define_function` / `entry_block`, the function
+//!    pointer prepended by `CallRuntime` (src/codegen/mod.rs);
+//!  * the extern "C" types and call orders of `func!` (src/codegen/check.rs)
+//!    and `registerable_fn!` (src/runtime/func.rs);
+//!  * discriminants used by `question_mark`, `for` (src/mir/lower.rs) and
+//!    `ffi::list_get` (src/value/list.rs) with its payload offset expression.
+//!
+//! Everything outside the recognised shapes is an extraction failure.
 
-pub const TARGETS: &[Target] = &[];
+use super::{Gen, Target};
+use crate::find;
+use quote::ToTokens;
+use std::path::Path;
+use syn::{Expr, Pat, Stmt};
+
+pub const TARGETS: &[Target] = &[("boundary", "BoundaryTables", boundary as Gen)];
+
+type R = Result<String, String>;
+
+fn toks(t: &impl ToTokens) -> String {
+    t.to_token_stream().to_string().replace([' ', '\n'], "")
+}
+
+fn strip(s: &str) -> String {
+    s.replace([' ', '\n'], "")
+}
+
+/// Position of `needle` in `hay` (both whitespace-free); must occur exactly once.
+fn pos(hay: &str, needle: &str, what: &str) -> Result<usize, String> {
+    let n = strip(needle);
+    match hay.matches(&n).count() {
+        1 => Ok(hay.find(&n).unwrap()),
+        k => Err(format!("{what}: expected exactly one occurrence of `{needle}`, found {k}")),
+    }
+}
+
+/// Positions of the fragments, which must occur exactly once each and in this order.
+fn in_order(hay: &str, frags: &[&str], what: &str) -> Result<(), String> {
+    let mut last = 0usize;
+    for f in frags {
+        let p = pos(hay, f, what)?;
+        if p < last {
+            return Err(format!("{what}: fragment `{f}` out of order"));
+        }
+        last = p;
+    }
+    Ok(())
+}
+
+// ------------------------------------------------------------ arithmetic subset
+
+/// Expression of the layout arithmetic as a Lean term.
+fn arith(e: &Expr) -> R {
+    Ok(match e {
+        Expr::Paren(p) => arith(&p.expr)?,
+        Expr::Reference(r) => arith(&r.expr)?,
+        Expr::Lit(l) => match &l.lit {
+            syn::Lit::Int(i) => i.base10_digits().to_string(),
+            other => return Err(format!("unsupported literal `{}`", toks(other))),
+        },
+        Expr::Path(p) if p.path.segments.len() == 1 => p.path.segments[0].ident.to_string(),
+        Expr::Field(f) => format!("{}.{}", arith(&f.base)?, f.member.to_token_stream()),
+        Expr::Binary(b) => {
+            let op = match b.op {
+                syn::BinOp::Add(_) => "+",
+                syn::BinOp::Div(_) => "/",
+                _ => return Err(format!("unsupported operator in `{}`", toks(e))),
+            };
+            format!("({} {op} {})", arith(&b.left)?, arith(&b.right)?)
+        }
+        Expr::Cast(c) if toks(&c.ty) == "usize" => arith(&c.expr)?,
+        Expr::MethodCall(m) => {
+            let recv = arith(&m.receiver)?;
+            let args: Result<Vec<String>, String> = m.args.iter().map(arith).collect();
+            let args = args?;
+            match (m.method.to_string().as_str(), args.len()) {
+                ("next_multiple_of", 1) => format!("(nextMultipleOf {recv} {})", args[0]),
+                ("max", 1) => format!("(max {recv} {})", args[0]),
+                ("align", 0) => format!("{recv}.align"),
+                ("size", 0) => format!("{recv}.size"),
+                ("int", 0) => format!("(sizeInt {recv})"),
+                (other, _) => return Err(format!("unsupported method `{other}` in `{}`", toks(e))),
+            }
+        }
+        Expr::Call(c) => {
+            let f = toks(&c.func);
+            let args: Result<Vec<String>, String> = c.args.iter().map(arith).collect();
+            let args = args?;
+            match (f.as_str(), args.len()) {
+                ("Layout::new", 2) | ("Self::new", 2) => format!("(Layout.new {} {})", args[0], args[1]),
+                ("Layout::of::<u8>", 0) => "(Layout.new 1 1)".to_string(),
+                ("Layout::of::<u16>", 0) => "(Layout.new 2 2)".to_string(),
+                ("Layout::of::<u32>", 0) => "(Layout.new 4 4)".to_string(),
+                ("Layout::of::<u64>", 0) => "(Layout.new 8 8)".to_string(),
+                ("Layout::of::<char>", 0) => "h.char".to_string(),
+                ("Layout::of::<crate::RotoString>", 0) => "h.string".to_string(),
+                ("Layout::of::<std::net::IpAddr>", 0) => "h.ipaddr".to_string(),
+                ("Layout::of::<inetnum::addr::Prefix>", 0) => "h.prefix_".to_string(),
+                ("Layout::of::<ErasedList>", 0) => "h.list".to_string(),
+                _ => return Err(format!("unsupported call `{}`", toks(e))),
+            }
+        }
+        Expr::Struct(s) if toks(&s.path) == "Self" && s.rest.is_none() => {
+            let mut fs = vec![];
+            for f in &s.fields {
+                fs.push(format!("{} := {}", f.member.to_token_stream(), arith(&f.expr)?));
+            }
+            format!("{{ {} }}", fs.join(", "))
+        }
+        other => return Err(format!("unsupported expression `{}`", toks(other))),
+    })
+}
+
+/// A straight-line body: `let x = e;`, `self.f = e;`, tail expression.
+/// `ret_self`: the function takes `&mut self` and its result is `(self, tail)`.
+fn straight(stmts: &[Stmt], ret_self: bool) -> R {
+    let mut out = String::new();
+    for (i, s) in stmts.iter().enumerate() {
+        match s {
+            Stmt::Local(l) => {
+                let Pat::Ident(pi) = &l.pat else {
+                    return Err(format!("unsupported let pattern `{}`", toks(&l.pat)));
+                };
+                let init = l.init.as_ref().ok_or("let without initialiser")?;
+                if init.diverge.is_some() {
+                    return Err("let-else in straight-line code".into());
+                }
+                out.push_str(&format!("  let {} := {}\n", pi.ident, arith(&init.expr)?));
+            }
+            Stmt::Expr(Expr::Assign(a), Some(_)) => {
+                let Expr::Field(f) = &*a.left else {
+                    return Err(format!("unsupported assignment `{}`", toks(a)));
+                };
+                if toks(&f.base) != "self" {
+                    return Err(format!("unsupported assignment `{}`", toks(a)));
+                }
+                out.push_str(&format!(
+                    "  let self := {{ self with {} := {} }}\n",
+                    f.member.to_token_stream(),
+                    arith(&a.right)?
+                ));
+            }
+            Stmt::Expr(e, None) if i + 1 == stmts.len() => {
+                let t = arith(e)?;
+                out.push_str(&if ret_self { format!("  (self, {t})\n") } else { format!("  {t}\n") });
+                return Ok(out);
+            }
+            other => return Err(format!("unsupported statement `{}`", toks(other))),
+        }
+    }
+    Err("body has no tail expression".into())
+}
+
+fn takes_mut_self(f: &find::FnBody) -> bool {
+    matches!(f.sig.inputs.first(), Some(syn::FnArg::Receiver(r)) if r.mutability.is_some())
+}
+
+// ------------------------------------------------------------ small tables
+
+fn vname(s: &str) -> R {
+    match s {
+        "Some" | "None" | "Ok" | "Err" | "Accept" | "Reject" => Ok(format!(".{s}")),
+        other => Err(format!("unknown variant name {other}")),
+    }
+}
+
+/// `enum Name<P0, P1> { V(P0), W, … }` with its `#[repr(..)]`: per variant the
+/// indices of the generic parameters its fields are.
+fn mirror_enum(file: &syn::File, name: &str) -> Result<(Vec<(String, Vec<String>)>, bool), String> {
+    for item in &file.items {
+        let syn::Item::Enum(e) = item else { continue };
+        if e.ident != name {
+            continue;
+        }
+        let repr_u8 = e.attrs.iter().any(|a| toks(a) == "#[repr(u8)]");
+        let params: Vec<String> = e.generics.type_params().map(|p| p.ident.to_string()).collect();
+        let mut vs = vec![];
+        for v in &e.variants {
+            if v.discriminant.is_some() {
+                return Err(format!("{name}: explicit discriminant on {}", v.ident));
+            }
+            let mut fields = vec![];
+            match &v.fields {
+                syn::Fields::Unit => {}
+                syn::Fields::Unnamed(u) => {
+                    for f in &u.unnamed {
+                        let t = toks(&f.ty);
+                        let idx = params.iter().position(|p| *p == t).ok_or_else(|| format!("{name}::{}: field type {t} is not a type parameter", v.ident))?;
+                        fields.push(idx.to_string());
+                    }
+                }
+                syn::Fields::Named(_) => return Err(format!("{name}: named fields")),
+            }
+            vs.push((vname(&v.ident.to_string())?, fields));
+        }
+        return Ok((vs, repr_u8));
+    }
+    Err(format!("enum {name} not found"))
+}
+
+fn lean_list(xs: &[String]) -> String {
+    format!("[{}]", xs.join(", "))
+}
+
+fn rust_head(t: &str) -> R {
+    Ok(match t {
+        "bool" | "u8" | "u16" | "u32" | "u64" | "i8" | "i16" | "i32" | "i64" | "f32" | "f64" | "char" | "Asn"
+        | "IpAddr" | "Prefix" | "RotoString" | "StringBytes" | "StringChars" | "StringLines" | "ErasedList"
+        | "VTable" | "DynVal" => format!(".{t}"),
+        "()" => ".unit".into(),
+        _ if t.starts_with("Val<") => ".Val".into(),
+        _ if t.starts_with("Option<") => ".Option".into(),
+        _ if t.starts_with("Result<") => ".Result".into(),
+        _ if t.starts_with("Verdict<") => ".Verdict".into(),
+        _ if t.starts_with("List<") => ".List".into(),
+        other => return Err(format!("impl Value for unknown type `{other}`")),
+    })
+}
+
+fn as_param_kind(self_ty: &str, ap: &str) -> R {
+    Ok(match ap {
+        "()" => ".unitValue",
+        "Self" if self_ty == "()" => ".unitValue",
+        "Self" => ".byValue",
+        "*mutSelf" | "*mutSelf::Transformed" | "*mutT" => ".pointer",
+        other => return Err(format!("unsupported AsParam `{other}` for {self_ty}")),
+    }
+    .to_string())
+}
+
+fn assoc_type(i: &syn::ItemImpl, name: &str) -> Option<String> {
+    i.items.iter().find_map(|it| match it {
+        syn::ImplItem::Type(t) if t.ident == name => Some(toks(&t.ty)),
+        _ => None,
+    })
+}
+
+// ------------------------------------------------------------ the target
+
+fn boundary(repo: &Path) -> R {
+    let mut o = String::new();
+    o.push_str(
+        "/- GENERATED by /verif/extract (target boundary) from src/runtime/layout.rs, src/typechecker/types.rs, \
+         src/value/{mod,option,result,verdict,list}.rs, src/mir/{ty,lower}.rs, src/lir/lower.rs, src/codegen/{mod,check}.rs, \
+         src/runtime/func.rs — do not edit. -/\nimport RotoV.Model.BoundaryLayout\nset_option linter.unusedVariables false\n\
+         namespace RotoV.Gen.BoundaryTables\nopen RotoV RotoV.Boundary\n\n",
+    );
+
+    // ---------------------------------------------------- runtime/layout.rs
+    let lay = find::parse(repo, "src/runtime/layout.rs")?;
+    o.push_str("/-! ### src/runtime/layout.rs -/\n");
+    let f = find::func(&lay, "new", Some("LayoutBuilder"))?;
+    o.push_str(&format!("def LayoutBuilder.new : LayoutBuilder :=\n{}\n", straight(&f.block.stmts, false)?));
+    let f = find::func(&lay, "add", Some("LayoutBuilder"))?;
+    if !takes_mut_self(&f) {
+        return Err("LayoutBuilder::add must take &mut self".into());
+    }
+    o.push_str(&format!(
+        "def LayoutBuilder.add (self : LayoutBuilder) (layout : Layout) : LayoutBuilder × Nat :=\n{}\n",
+        straight(&f.block.stmts, true)?
+    ));
+    let f = find::func(&lay, "finish", Some("LayoutBuilder"))?;
+    o.push_str(&format!(
+        "def LayoutBuilder.finish (self : LayoutBuilder) : Layout :=\n{}\n",
+        straight(&f.block.stmts, false)?
+    ));
+    let f = find::func(&lay, "union", Some("Layout"))?;
+    o.push_str(&format!(
+        "def Layout.union (self other : Layout) : Layout :=\n{}\n",
+        straight(&f.block.stmts, false)?
+    ));
+    let f = find::func(&lay, "new", Some("Layout"))?;
+    in_order(
+        &toks(&f.block),
+        &["assert!(align>0);", "assert!(align.is_power_of_two());", "assert!(size.is_multiple_of(align));", "Self{size,align}"],
+        "Layout::new",
+    )?;
+    let f = find::func(&lay, "of", Some("Layout"))?;
+    in_order(
+        &toks(&f.block),
+        &["let std_layout = std::alloc::Layout::new::<T>();", "Self::new(std_layout.size(), std_layout.align())"],
+        "Layout::of",
+    )?;
+
+    // ------------------------------------------------- typechecker/types.rs
+    let types = find::parse(repo, "src/typechecker/types.rs")?;
+    o.push_str("/-! ### src/typechecker/types.rs -/\n");
+    for (ty, ns) in [("IntSize", "IntSize"), ("FloatSize", "FloatSize")] {
+        let f = find::func(&types, "int", Some(ty))?;
+        let ms = find::matches_on(&f.block, "self");
+        let [m] = &ms[..] else { return Err(format!("{ty}::int: expected one match") ) };
+        o.push_str(&format!("def {ns}.int : {ns} → Nat\n"));
+        for a in &m.arms {
+            let p = toks(&a.pat);
+            let Some(v) = p.strip_prefix("Self::") else { return Err(format!("{ty}::int: pattern {p}")) };
+            o.push_str(&format!("  | .{v} => {}\n", arith(&a.body)?));
+        }
+    }
+    let f = find::func(&types, "layout", Some("Primitive"))?;
+    let ms = find::matches_on(&f.block, "self");
+    let [m] = &ms[..] else { return Err("Primitive::layout: expected one match".into()) };
+    o.push_str("def primitiveLayout (h : HostLayouts) : Primitive → Layout\n");
+    for a in &m.arms {
+        let p = toks(&a.pat);
+        let (lp, size_fn) = match p.as_str() {
+            "Int(_,size)" => ("(.Int _ size)".to_string(), Some("IntSize.int")),
+            "Float(size)" => ("(.Float size)".to_string(), Some("FloatSize.int")),
+            "Bool" | "Char" | "Asn" | "String" | "IpAddr" | "Prefix" => (format!(".{p}"), None),
+            other => return Err(format!("Primitive::layout: unsupported pattern {other}")),
+        };
+        let body = match &*a.body {
+            Expr::Block(b) => straight(&b.block.stmts, false)?,
+            e => format!("  {}\n", arith(e)?),
+        };
+        let body = match size_fn {
+            Some(sf) => body.replace("sizeInt", sf),
+            None => body,
+        };
+        o.push_str(&format!("  | {lp} =>\n  {}", body.replace('\n', "\n  ").trim_end_matches(' ')));
+    }
+    // default_types(): the three enums
+    let f = find::func(&types, "default_types", None)?;
+    let body = toks(&f.block);
+    for (name, lean) in [("Option", "defaultOption"), ("Verdict", "defaultVerdict"), ("Result", "defaultResult")] {
+        // EnumType{name:"Option",doc:…,params:vec!["T"],variants:vec![("Some",vec![Type::ExplicitVar("T".into())]),("None",vec![]),],}
+        let key = format!("EnumType{{name:\"{name}\",");
+        let start = pos(&body, &key, "default_types")?;
+        let rest = &body[start..];
+        let pstart = rest.find("params:vec![").ok_or("default_types: params")? + "params:vec![".len();
+        let pend = rest[pstart..].find(']').ok_or("default_types: params end")? + pstart;
+        let params: Vec<String> = rest[pstart..pend].split(',').filter(|s| !s.is_empty()).map(|s| s.trim_matches('"').to_string()).collect();
+        let vstart = rest.find("variants:vec![").ok_or("default_types: variants")? + "variants:vec![".len();
+        let vend = rest[vstart..].find("],}").ok_or("default_types: variants end")? + vstart;
+        let vtext = &rest[vstart..vend];
+        let arr: syn::ExprArray = syn::parse_str(&format!("[{vtext}]")).map_err(|e| format!("default_types: {name}: {e}"))?;
+        let mut vs = vec![];
+        for el in &arr.elems {
+            let Expr::Tuple(t) = el else { return Err(format!("default_types: {name}: variant is not a tuple")) };
+            let [Expr::Lit(syn::ExprLit { lit: syn::Lit::Str(vn), .. }), Expr::Macro(fm)] = &t.elems.iter().cloned().collect::<Vec<_>>()[..] else {
+                return Err(format!("default_types: {name}: unsupported variant `{}`", toks(el)));
+            };
+            let vn = vname(&vn.value())?;
+            let ft = strip(&fm.mac.tokens.to_string());
+            let mut fields = vec![];
+            for fpart in ft.split(',').filter(|s| !s.is_empty()) {
+                let Some(pn) = fpart.strip_prefix("Type::ExplicitVar(\"").and_then(|s| s.strip_suffix("\".into())")) else {
+                    return Err(format!("default_types: {name}: a variant field is not a type parameter: {fpart}"));
+                };
+                let idx = params.iter().position(|p| p == pn).ok_or_else(|| format!("default_types: {name}: unknown parameter {pn}"))?;
+                fields.push(idx.to_string());
+            }
+            vs.push(format!("({vn}, {})", lean_list(&fields)));
+        }
+        o.push_str(&format!(
+            "/-- `{name}` in `default_types()`: variants in order, each with the indices of the type parameters of its fields -/\ndef {lean} : List (VName × List Nat) := {}\ndef {lean}Params : Nat := {}\n",
+            lean_list(&vs),
+            params.len()
+        ));
+    }
+
+    // ------------------------------------------------------------ value/*.rs
+    o.push_str("\n/-! ### src/value/{option,result,verdict}.rs -/\n");
+    for (file, en, lean) in [
+        ("src/value/option.rs", "RotoOption", "rotoOption"),
+        ("src/value/result.rs", "RotoResult", "rotoResult"),
+        ("src/value/verdict.rs", "Verdict", "verdict"),
+    ] {
+        let f = find::parse(repo, file)?;
+        let (vs, repr) = mirror_enum(&f, en)?;
+        let vs: Vec<String> = vs.iter().map(|(n, k)| format!("({n}, {})", lean_list(k))).collect();
+        o.push_str(&format!(
+            "/-- `{en}`: variants in declaration order, each with the indices of the type parameters of its fields -/\ndef {lean}Variants : List (VName × List Nat) := {}\ndef {lean}ReprU8 : Bool := {repr}\n",
+            lean_list(&vs)
+        ));
+    }
+    let vm = find::parse(repo, "src/value/mod.rs")?;
+    o.push_str("\n/-! ### src/value/mod.rs -/\n");
+    let mut kinds = vec![];
+    let mut simple = vec![];
+    let mut simple_kind = None;
+    for item in &vm.items {
+        match item {
+            syn::Item::Impl(i) => {
+                let Some((_, tr, _)) = &i.trait_ else { continue };
+                if toks(tr) != "Value" {
+                    continue;
+                }
+                let ty = toks(&i.self_ty);
+                let ap = assoc_type(i, "AsParam").ok_or_else(|| format!("impl Value for {ty}: no AsParam"))?;
+                let tf = assoc_type(i, "Transformed").ok_or_else(|| format!("impl Value for {ty}: no Transformed"))?;
+                let head = rust_head(&ty)?;
+                // the mirror type the pointer points to
+                let mirror_ok = match head.as_str() {
+                    ".Option" => tf == "RotoOption<T::Transformed>",
+                    ".Result" => tf == "RotoResult<T::Transformed,E::Transformed>",
+                    ".Verdict" => tf == "Verdict<A::Transformed,R::Transformed>",
+                    _ => tf == "Self",
+                };
+                if !mirror_ok {
+                    return Err(format!("impl Value for {ty}: unexpected Transformed = {tf}"));
+                }
+                kinds.push(format!("({head}, {})", as_param_kind(&ty, &ap)?));
+            }
+            syn::Item::Macro(m) => {
+                let name = m.mac.path.to_token_stream().to_string();
+                if name == "macro_rules" && m.ident.as_ref().is_some_and(|i| i == "simple_value") {
+                    let def = strip(&m.mac.tokens.to_string());
+                    in_order(
+                        &def,
+                        &["impl Param<$t> for $t", "impl Value for $t { type Transformed = Self; type AsParam = Self;"],
+                        "simple_value!",
+                    )?;
+                    simple_kind = Some(".byValue");
+                } else if name == "simple_value" {
+                    let t = strip(&m.mac.tokens.to_string());
+                    let (ty, _ir) = t.split_once(',').ok_or("simple_value! invocation")?;
+                    simple.push(rust_head(ty)?);
+                }
+            }
+            _ => {}
+        }
+    }
+    let sk = simple_kind.ok_or("macro_rules! simple_value not found")?;
+    for s in &simple {
+        kinds.push(format!("({s}, {sk})"));
+    }
+    o.push_str(&format!(
+        "/-- `type AsParam` of every `impl Value` (the `simple_value!` types last) -/\ndef asParamKinds : List (RustHead × ParamKind) := {}\ndef simpleValues : List RustHead := {}\n",
+        lean_list(&kinds),
+        lean_list(&simple)
+    ));
+    // Param impls: `*mut T` reads with ptr::read, `as_param` takes the address
+    let vms = toks(&vm);
+    in_order(
+        &vms,
+        &["impl<T>Param<T>for*mutT{fn as_param(transformed:&mut T)->Self{transformed as*mut T}fn to_value(self)->T{unsafe{std::ptr::read(self)}}"],
+        "Param<T> for *mut T",
+    )?;
+    in_order(
+        &vms,
+        &["impl<T>Param<Val<T>>for*mutT{fn as_param(value:&mut Val<T>)->Self{&mut value.0 as*mut _}fn to_value(self)->Val<T>{Val(unsafe{std::ptr::read(self)})}"],
+        "Param<Val<T>> for *mut T",
+    )?;
+
+    // -------------------------------------------------------------- mir/ty.rs
+    let ty = find::parse(repo, "src/mir/ty.rs")?;
+    o.push_str("\n/-! ### src/mir/ty.rs -/\n");
+    let f = find::func(&ty, "layout_of", Some("Pool"))?;
+    let b = toks(&f.block);
+    in_order(
+        &b,
+        &[
+            "Ty::Never=>return None,",
+            "Ty::Unit=>Layout::new(0,1),",
+            "Ty::Primitive(primitive)=>primitive.layout(),",
+            "Ty::Runtime(type_id)=>{rt.get_runtime_type(*type_id).unwrap().layout()}",
+            "Ty::Record(fields)=>{let mut builder=LayoutBuilder::new();for&(_,t)in fields{builder.add(&self.layout_of(t,rt)?);}builder.finish()}",
+            "Ty::Enum(variants)=>{let mut layout=None;for(_,fields)in variants{let mut builder=LayoutBuilder::new();builder.add(&Layout::of::<",
+            "let builder=fields.iter().try_fold(builder,|mut b,t|{let layout=self.layout_of(*t,rt)?;b.add(&layout);Some(b)});",
+            "let Some(builder)=builder else{continue;};",
+            "let variant_layout=builder.finish();",
+            "layout=Some(layout.map_or(variant_layout.clone(),|l:Layout|{l.union(&variant_layout)}),);}layout?}",
+            "Ty::List(_)=>Layout::of::<ErasedList>(),",
+            "Some(layout)",
+        ],
+        "Pool::layout_of",
+    )?;
+    // the tag layout: the argument of the first `builder.add(&…)` of the enum arm / of `location`
+    let tag_of = |text: &str, before: &str, what: &str| -> R {
+        let key = strip(before);
+        let p = pos(text, &key, what)? + key.len();
+        let rest = &text[p..];
+        let e = rest.find(");").ok_or_else(|| format!("{what}: tag layout expression"))?;
+        let ex: Expr = syn::parse_str(&rest[..e]).map_err(|e| format!("{what}: tag layout: {e}"))?;
+        arith(&ex)
+    };
+    let enum_tag = tag_of(&b, "for(_,fields)in variants{let mut builder=LayoutBuilder::new();builder.add(&", "Pool::layout_of")?;
+    o.push_str(&format!("/-- `Pool::layout_of` has the recognised shape (constants below; recursion modelled in `Model/Boundary.lean`) -/\ndef unitLayout : Layout := (Layout.new 0 1)\ndef enumTagLayout : Layout := {enum_tag}\ndef listLayout (h : HostLayouts) : Layout := h.list\n"));
+    let f = find::func(&ty, "is_reference_type", Some("Pool"))?;
+    let b = toks(&f.block);
+    let zs = strip("if self.layout_of(ty, rt)?.size() == 0 { return Some(false); }");
+    let zs_rt = strip("if !matches!(self.get(ty), Ty::Runtime(_)) && self.layout_of(ty, rt)?.size() == 0 { return Some(false); }");
+    let mode = if b.matches(&zs_rt).count() == 1 && b.find(&zs_rt) < b.find("letres=matchself.get(ty)") {
+        ".zeroSizedNoneUnlessRuntime"
+    } else if b.matches(&zs).count() == 1 && b.find(&zs) < b.find("letres=matchself.get(ty)") {
+        ".zeroSizedNone"
+    } else {
+        return Err("is_reference_type: the zero-sized test before the match was not recognised".into());
+    };
+    o.push_str(&format!(
+        "/-- the zero-sized early return of `is_reference_type` (as a `LowerStep`: with or without the exemption of registered types) -/\ndef isReferenceZeroSized : LowerStep := {mode}\n"
+    ));
+    let ms = find::matches_on(&f.block, "self.get(ty)");
+    let [m] = &ms[..] else { return Err("is_reference_type: expected one match".into()) };
+    o.push_str("def isReferenceKind : MKind → Option Bool\n");
+    for a in &m.arms {
+        let body = match toks(&a.body).as_str() {
+            "true" => "some true",
+            "false" => "some false",
+            "return None" | "returnNone" => "none",
+            other => return Err(format!("is_reference_type: unsupported arm body {other}")),
+        };
+        let pats = match &a.pat {
+            Pat::Or(o) => o.cases.iter().cloned().collect::<Vec<_>>(),
+            p => vec![p.clone()],
+        };
+        let mut lean_pats = vec![];
+        for p in pats {
+            let t = toks(&p);
+            match t.as_str() {
+                "Ty::Never" => lean_pats.push(".Never".to_string()),
+                "Ty::Unit" => lean_pats.push(".Unit".to_string()),
+                "Ty::Record(_)" => lean_pats.push(".Record".to_string()),
+                "Ty::Enum(_)" => lean_pats.push(".Enum".to_string()),
+                "Ty::List(_)" => lean_pats.push(".List".to_string()),
+                "Ty::Runtime(_)" => lean_pats.push(".Runtime".to_string()),
+                _ => {
+                    let Some(inner) = t.strip_prefix("Ty::Primitive(").and_then(|s| s.strip_suffix(")")) else {
+                        return Err(format!("is_reference_type: unsupported pattern {t}"));
+                    };
+                    for alt in inner.trim_end_matches(',').split('|') {
+                        let Some(v) = alt.strip_prefix("Primitive::") else {
+                            return Err(format!("is_reference_type: unsupported pattern {t}"));
+                        };
+                        let lp = match v {
+                            "Int(..)" => "(.Primitive (.Int _ _))".to_string(),
+                            "Float(..)" => "(.Primitive (.Float _))".to_string(),
+                            "String" | "IpAddr" | "Prefix" | "Bool" | "Char" | "Asn" => format!("(.Primitive .{v})"),
+                            other => return Err(format!("is_reference_type: unsupported primitive pattern {other}")),
+                        };
+                        lean_pats.push(lp);
+                    }
+                }
+            }
+        }
+        o.push_str(&format!("  | {} => {body}\n", lean_pats.join(" | ")));
+    }
+    if !b.ends_with("Some(res)}") {
+        return Err("is_reference_type must end with Some(res)".into());
+    }
+
+    // ------------------------------------------------------------ lir/lower.rs
+    let lower = find::parse(repo, "src/lir/lower.rs")?;
+    o.push_str("\n/-! ### src/lir/lower.rs -/\n");
+    let f = find::func(&lower, "lower_type", Some("Lowerer"))?;
+    let b = toks(&f.block);
+    let step_frags: [(&str, String); 6] = [
+        (".zeroSizedNone", strip("if self.layout_of(ty).is_some_and(|l| l.size() == 0) { return None; }")),
+        (
+            ".zeroSizedNoneUnlessRuntime",
+            strip("if !matches!(self.ctx.type_info.ty_pool.get(ty), Ty::Runtime(_)) && self.layout_of(ty).is_some_and(|l| l.size() == 0) { return None; }"),
+        ),
+        (".primTable", strip("if let Ty::Primitive(p) = ty_kind {")),
+        (".listPointer", strip("if let Ty::List(_) = ty_kind { return Some(IrType::Pointer); }")),
+        (".runtimePointer", strip("if let Ty::Runtime(_) = ty_kind { return Some(IrType::Pointer); }")),
+        (
+            ".referencePointerElseIce",
+            strip("Some(match ty { x if self.is_reference_type(x)? => IrType::Pointer, _ => ice!(\"could not lower: {ty:?}\"), })"),
+        ),
+    ];
+    let mut steps: Vec<(usize, &str)> = vec![];
+    for (name, frag) in &step_frags {
+        match b.matches(frag.as_str()).count() {
+            0 => {}
+            1 => steps.push((b.find(frag.as_str()).unwrap(), name)),
+            n => return Err(format!("lower_type: step {name} occurs {n} times")),
+        }
+    }
+    steps.sort();
+    // everything in the body must be accounted for: the recognised steps, the
+    // `let ty_kind = …` binding and the primitive table
+    let mut rest = b.clone();
+    for (_, frag) in &step_frags {
+        rest = rest.replace(frag.as_str(), "");
+    }
+    let ms = find::matches_on(&f.block, "p");
+    let [m] = &ms[..] else { return Err("lower_type: expected one `match p`".into()) };
+    let prim_text = format!("useFloatSize::*;useIntKind::*;useIntSize::*;'prim:{{returnSome({});}}}}", toks(m));
+    for known in [prim_text.as_str(), "letty_kind=self.ctx.type_info.ty_pool.get(ty);"] {
+        if rest.matches(known).count() != 1 {
+            return Err(format!("lower_type: expected fragment `{known}`"));
+        }
+        rest = rest.replace(known, "");
+    }
+    if rest != "{}" {
+        return Err(format!("lower_type: unrecognised code `{rest}`"));
+    }
+    o.push_str(&format!(
+        "/-- steps of `Lowerer::lower_type` in source order -/\ndef lowerTypeSteps : List LowerStep := {}\n",
+        lean_list(&steps.iter().map(|s| s.1.to_string()).collect::<Vec<_>>())
+    ));
+    o.push_str("def lowerPrim : Primitive → Option IrType\n");
+    let mut has_wild = false;
+    for a in &m.arms {
+        let p = toks(&a.pat);
+        let body = toks(&a.body);
+        if p == "_" {
+            if body != "break'prim" {
+                return Err(format!("lower_type: wildcard arm must break: {body}"));
+            }
+            has_wild = true;
+            o.push_str("  | _ => none\n");
+            continue;
+        }
+        let Some(irt) = body.strip_prefix("IrType::") else { return Err(format!("lower_type: arm body {body}")) };
+        let lp = if let Some(inner) = p.strip_prefix("Primitive::Int(").and_then(|s| s.strip_suffix(")")) {
+            let (k, s) = inner.split_once(',').ok_or("lower_type: Int pattern")?;
+            format!("(.Int .{k} .{s})")
+        } else if let Some(inner) = p.strip_prefix("Primitive::Float(").and_then(|s| s.strip_suffix(")")) {
+            format!("(.Float .{inner})")
+        } else if let Some(v) = p.strip_prefix("Primitive::") {
+            format!(".{v}")
+        } else {
+            return Err(format!("lower_type: pattern {p}"));
+        };
+        o.push_str(&format!("  | {lp} => some .{irt}\n"));
+    }
+    if !has_wild {
+        o.push_str("  | _ => none\n");
+    }
+    // Lowerer::location: the `VariantField` loop
+    let floc = find::func(&lower, "location", Some("Lowerer"))?;
+    let bl = toks(&floc.block);
+    in_order(
+        &bl,
+        &[
+            "mir::Projection::VariantField(variant_name,n)=>{let Ty::Enum(variants)=self.ctx.type_info.ty_pool.get(ty)else{ice!()};let mut builder=LayoutBuilder::new();builder.add(&Layout::of::<",
+            "let variant=variants.iter().find(|v|v.0==variant_name).unwrap();",
+            "let mut last_ty=None;let mut new_offset=0;for&field_ty in variant.1.iter().take(n+1){new_offset=builder.add(&self.layout_of(field_ty)?);last_ty=Some(field_ty);}",
+            "ty=last_ty.unwrap();offset+=new_offset;",
+            "Some(Location::Pointer{base,offset})",
+        ],
+        "Lowerer::location",
+    )?;
+    let loc_tag = {
+        let key = strip("else{ice!()};let mut builder=LayoutBuilder::new();builder.add(&");
+        let p = pos(&bl, &key, "Lowerer::location")? + key.len();
+        let rest = &bl[p..];
+        let e = rest.find(");").ok_or("Lowerer::location: tag layout expression")?;
+        let ex: Expr = syn::parse_str(&rest[..e]).map_err(|e| format!("Lowerer::location: tag layout: {e}"))?;
+        arith(&ex)?
+    };
+    o.push_str(&format!("/-- the tag `Lowerer::location` skips before the fields of a variant (`VariantField` loop) -/\ndef locationTagLayout : Layout := {loc_tag}\n"));
+    // ir_signature: parameter filter and the return rule
+    let host = toks(&lower);
+    in_order(
+        &host,
+        &[
+            "let(return_ir_type,return_ptr)=match lowerer.is_reference_type(return_type){Some(true)=>(None,true),Some(false)=>(lowerer.lower_type(return_type),false),None=>(None,false),};",
+            "let ir_signature=Signature{parameters:parameters.iter().zip(&mir_signature.parameter_types).filter_map(|(def,ty)|{let ty=lowerer.lower_type(*ty)?;",
+            "Some((x,ty))}).collect(),context:true,return_ptr,return_type:return_ir_type,};",
+        ],
+        "ir_signature",
+    )?;
+    o.push_str("/-- `ir_signature.parameters`: kept iff `lower_type` is `Some` -/\ndef sigParamFilter : ArgFilter := .lowerType\n/-- `ir_signature.context` -/\ndef sigContext : Bool := true\n");
+    let f = find::func(&lower, "call", Some("Lowerer"))?;
+    let b = toks(&f.block);
+    let call_filter = if b.matches(&strip("filter_map(|(v, t)| { self.layout_of(t).filter(|l| !l.is_zero_sized()).map(|_| v) })")).count() == 1 {
+        ".nonZeroLayout"
+    } else if b.matches(&strip("filter_map(|(v, t)| self.lower_type(t).map(|_| v))")).count() == 1 {
+        ".lowerType"
+    } else {
+        return Err("Lowerer::call: argument filter not recognised".into());
+    };
+    in_order(
+        &b,
+        &[
+            "let reference_return=self.is_reference_type(return_type);",
+            "Some(true)=>{let layout=self.layout_of(return_type).unwrap();let out_ptr=self.new_stack_slot(layout);(None,Some(out_ptr))}",
+            "Some(false)=>{let to=self.lower_type(return_type).map(|ty|(self.new_tmp(ty),ty));(to,None)}",
+            "self.emit(Instruction::Call{to:to.clone(),ctx:Some(ctx.into()),func,args,return_ptr:out_ptr.clone(),});",
+        ],
+        "Lowerer::call",
+    )?;
+    o.push_str(&format!("/-- arguments of a script-to-script call -/\ndef callArgFilter : ArgFilter := {call_filter}\n"));
+    let f = find::func(&lower, "call_runtime", Some("Lowerer"))?;
+    let b = toks(&f.block);
+    in_order(
+        &b,
+        &[
+            "let layout=self.layout_of(return_type).unwrap_or_else(||Layout::new(0,1));let out_ptr=self.new_stack_slot(layout);",
+            "args.push(Operand::Place(out_ptr.clone()));parameters.push((\"ret\".into(),IrType::Pointer));",
+            "args.push(base.into());parameters.push((format!(\"vtable_{i}\").into(),IrType::Pointer));",
+            "if!dyn_vals[i]{let Some(ty)=self.lower_type(ty)else{continue;};args.push(arg.into());parameters.push((i.to_string().into(),ty));continue;}",
+            "let ir_signature=Signature{parameters,context:false,return_ptr:true,return_type:None,};",
+            "self.emit(Instruction::CallRuntime{func:func_ref,args,});",
+            "if self.is_reference_type(return_type)?{Some(out_ptr.into())}else{let ty=self.lower_type(return_type)?;let tmp=self.new_tmp(ty);self.emit_read(tmp.clone(),out_ptr.into(),ty);Some(tmp.into())}",
+        ],
+        "Lowerer::call_runtime",
+    )?;
+    o.push_str("/-- arguments of a call to a registered function: out pointer, vtables, then the arguments whose `lower_type` is `Some` -/\ndef callRuntimeSlots : List Slot := [.retPtr, .vtables, .params]\ndef callRuntimeArgFilter : ArgFilter := .lowerType\n");
+
+    // ----------------------------------------------------------- codegen/mod.rs
+    let cg = find::parse(repo, "src/codegen/mod.rs")?;
+    o.push_str("\n/-! ### src/codegen/mod.rs -/\n");
+    let f = find::func(&cg, "cranelift_type", Some("ModuleBuilder"))?;
+    let ms = find::matches_on(&f.block, "ty");
+    let [m] = &ms[..] else { return Err("cranelift_type: expected one match".into()) };
+    o.push_str("def craneliftType : IrType → AbiTy\n");
+    for a in &m.arms {
+        let pats: Vec<String> = toks(&a.pat)
+            .split('|')
+            .map(|p| p.strip_prefix("IrType::").map(|v| format!(".{v}")).ok_or_else(|| format!("cranelift_type: pattern {p}")))
+            .collect::<Result<_, _>>()?;
+        let body = match toks(&a.body).as_str() {
+            "I8" => ".I8",
+            "I16" => ".I16",
+            "I32" => ".I32",
+            "I64" => ".I64",
+            "F32" => ".F32",
+            "F64" => ".F64",
+            // x86-64 / aarch64: the ISA's pointer type is 64 bits (checked by the harness)
+            "self.isa.pointer_type()" => ".I64",
+            other => return Err(format!("cranelift_type: body {other}")),
+        };
+        o.push_str(&format!("  | {} => {body}\n", pats.join(" | ")));
+    }
+    let slot_order = |text: &str, frags: [(&str, &str); 3], what: &str| -> Result<String, String> {
+        let mut ps = vec![];
+        for (slot, frag) in frags {
+            ps.push((pos(text, frag, what)?, slot));
+        }
+        ps.sort();
+        Ok(lean_list(&ps.iter().map(|p| p.1.to_string()).collect::<Vec<_>>()))
+    };
+    let f = find::func(&cg, "declare_function", Some("ModuleBuilder"))?;
+    let b = toks(&f.block);
+    let decl = slot_order(
+        &b,
+        [
+            (".retPtr", "if ir_signature.return_ptr{sig.params.push(AbiParam::new(self.cranelift_type(&IrType::Pointer)));}"),
+            (".ctx", "if ir_signature.context{sig.params.push(AbiParam::new(self.cranelift_type(&IrType::Pointer)));}"),
+            (".params", "for(_,ty)in&ir_signature.parameters{sig.params.push(AbiParam::new(self.cranelift_type(ty)));}"),
+        ],
+        "declare_function",
+    )?;
+    in_order(
+        &b,
+        &[
+            "sig.returns=match&ir_signature.return_type{Some(ty)=>vec![AbiParam::new(self.cranelift_type(ty))],None=>Vec::new(),};",
+            "return_by_ref:ir_signature.return_ptr,",
+        ],
+        "declare_function",
+    )?;
+    let f = find::func(&cg, "define_function", Some("ModuleBuilder"))?;
+    let b = toks(&f.block);
+    let defn = slot_order(
+        &b,
+        [
+            (".retPtr", "if return_ptr{sig.params.push(AbiParam::new(self.cranelift_type(&IrType::Pointer)));}"),
+            (".ctx", "if context{sig.params.push(AbiParam::new(self.cranelift_type(&IrType::Pointer)));}"),
+            (".params", "for(_,ty)in parameters{sig.params.push(AbiParam::new(self.cranelift_type(ty)));}"),
+        ],
+        "define_function",
+    )?;
+    let f = find::func(&cg, "entry_block", Some("FuncGen"))?;
+    let b = toks(&f.block);
+    let after = b.find("letmutargs=args.into_iter();").ok_or("entry_block: args iterator")?;
+    let entry = slot_order(
+        &b[after..],
+        [
+            (".retPtr", "if return_ptr{self.def(self.module.variable_map[&Var{scope:self.scope,kind:VarKind::Return,}].0,args.next().unwrap(),)}"),
+            (".ctx", "if context{self.def(self.module.variable_map[&Var{scope:self.scope,kind:VarKind::Context,}].0,args.next().unwrap(),);}"),
+            (".params", "for((x,_),val)in parameters.iter().zip(args){"),
+        ],
+        "entry_block",
+    )?;
+    o.push_str(&format!(
+        "/-- order in which the hidden and visible parameters are declared / defined / bound -/\ndef declareSlots : List Slot := {decl}\ndef defineSlots : List Slot := {defn}\ndef entrySlots : List Slot := {entry}\n"
+    ));
+    let cgs = toks(&cg);
+    in_order(
+        &cgs,
+        &["let mut new_args=Vec::new();new_args.push(ptr);new_args.extend(args.iter().map(|op|self.operand(op).0));self.ins().call(func_ref,&new_args);"],
+        "CallRuntime codegen",
+    )?;
+    o.push_str("/-- `CallRuntime`: the registered closure's address is passed first -/\ndef callRuntimePrefix : List Slot := [.fnPtr]\n");
+
+    // --------------------------------------------------------- codegen/check.rs
+    let ck = find::parse(repo, "src/codegen/check.rs")?;
+    o.push_str("\n/-! ### src/codegen/check.rs (`func!`) -/\n");
+    let mut def = None;
+    let mut arities = vec![];
+    for item in &ck.items {
+        let syn::Item::Macro(m) = item else { continue };
+        let name = m.mac.path.to_token_stream().to_string();
+        if name == "macro_rules" && m.ident.as_ref().is_some_and(|i| i == "func") {
+            def = Some(strip(&m.mac.tokens.to_string()));
+        } else if name == "func" {
+            let t = strip(&m.mac.tokens.to_string());
+            let inner = t.strip_prefix("fn(").and_then(|s| s.strip_suffix(")->R")).ok_or("func! invocation")?;
+            arities.push(inner.split(',').filter(|s| !s.is_empty()).count().to_string());
+        }
+    }
+    let def = def.ok_or("macro_rules! func not found")?;
+    in_order(
+        &def,
+        &[
+            "type RotoWithReturnPointer=extern\"C\"fn(*mut$r::Transformed,*mut(),$($a::AsParam),*)->();",
+            "type RotoWithoutReturnPointer=extern\"C\"fn(*mut(),$($a::AsParam,)*)->$r::Transformed;",
+            "let mut transformed=($(<$a as Value>::transform($a),)*);",
+            "let($($a,)*)=($(<$a as Value>::as_param($a),)*);",
+            "std::mem::forget(transformed);",
+            "if return_by_ref{let func_ptr=unsafe{std::mem::transmute::<*const u8,Self::RotoWithReturnPointer>(func_ptr)};",
+            "func_ptr(ret.as_mut_ptr(),ctx as*mut Ctx as*mut(),$($a),*);",
+            "let transformed_ret=unsafe{ret.assume_init()};let ret:Self::Return=Self::Return::untransform(transformed_ret);ret}",
+            "else{let func_ptr=unsafe{std::mem::transmute::<*const u8,Self::RotoWithoutReturnPointer>(func_ptr)};",
+            "let ret=func_ptr(ctx as*mut Ctx as*mut(),$($a),*);<R as Value>::untransform(ret)}",
+        ],
+        "func!",
+    )?;
+    o.push_str(&format!(
+        "def rustWithReturnPointer : List Slot := [.retPtr, .ctx, .params]\ndef rustWithReturnPointerRet : RetSlot := .nothing\ndef rustWithoutReturnPointer : List Slot := [.ctx, .params]\ndef rustWithoutReturnPointerRet : RetSlot := .transformed\ndef funcArities : List Nat := {}\n",
+        lean_list(&arities)
+    ));
+
+    // ----------------------------------------------------------- runtime/func.rs
+    let rf = find::parse(repo, "src/runtime/func.rs")?;
+    o.push_str("\n/-! ### src/runtime/func.rs (`registerable_fn!`) -/\n");
+    let mut n_defs = 0;
+    let mut reg_arities = vec![];
+    for item in &rf.items {
+        let syn::Item::Macro(m) = item else { continue };
+        let name = m.mac.path.to_token_stream().to_string();
+        let is_def = name == "macro_rules";
+        let id = m.ident.as_ref().map(|i| i.to_string()).unwrap_or_default();
+        if is_def && (id == "registerable_fn" || id == "registerable_fn_out_ptr") {
+            let d = strip(&m.mac.tokens.to_string());
+            in_order(
+                &d,
+                &["type RustWrapper=extern\"C\"fn(*const Self,*mut$r::Transformed,$($a::AsParam),*)->();"],
+                &id,
+            )?;
+            if id == "registerable_fn" {
+                in_order(
+                    &d,
+                    &[
+                        "extern\"C\"fn foo<$($a:Value,)*$r:Value>(x:*const impl Fn($($a,)*)->$r,out:*mut$r::Transformed,$($a:$a::AsParam),*)->(){",
+                        "let res=(unsafe{&*x})($(<$a as Value>::untransform(<$a as Value>::to_value($a)),)*);",
+                        "let res_transformed=<$r as Value>::transform(res);unsafe{std::ptr::write(out,res_transformed)};",
+                    ],
+                    &id,
+                )?;
+            } else {
+                in_order(
+                    &d,
+                    &[
+                        "extern\"C\"fn foo<$($a:Value,)*$r:Value>(x:*const impl Fn(OutPtr<$r>,$($a,)*),out:*mut$r::Transformed,$($a:$a::AsParam),*)->(){",
+                        "(unsafe{&*x})(OutPtr{ptr:out},$(<$a as Value>::untransform(<$a as Value>::to_value($a)),)*);",
+                    ],
+                    &id,
+                )?;
+            }
+            n_defs += 1;
+        } else if name == "registerable_fn" {
+            let t = strip(&m.mac.tokens.to_string());
+            let inner = t.strip_prefix("fn(").and_then(|s| s.strip_suffix(")->R")).ok_or("registerable_fn! invocation")?;
+            reg_arities.push(inner.split(',').filter(|s| !s.is_empty()).count().to_string());
+        }
+    }
+    if n_defs != 2 {
+        return Err("registerable_fn! / registerable_fn_out_ptr! definitions not found".into());
+    }
+    o.push_str(&format!(
+        "/-- parameters of a trampoline: the closure, the out pointer, then `AsParam` of every argument -/\ndef trampolineSlots : List Slot := [.fnPtr, .retPtr, .params]\ndef registerableArities : List Nat := {}\n",
+        lean_list(&reg_arities)
+    ));
+
+    // ------------------------------------------------------------- context fields
+    let mac = find::parse(repo, "macros/src/lib.rs")?;
+    let f = find::func(&mac, "roto_context", None)?;
+    in_order(
+        &toks(&f.block),
+        &[
+            "let field_name=f.ident.as_ref().unwrap();let field_ty=&f.ty;",
+            "let offset=quote!(std::mem::offset_of!(Self,#field_name));",
+            "let type_id=quote!(std::any::TypeId::of::<#field_ty>());",
+            "roto::__internal::ContextField{name:stringify!(#field_name),offset:#offset,type_name:#type_name,type_id:#type_id,docstring:#docstring,}",
+        ],
+        "derive(Context)",
+    )?;
+    let tc = find::parse(repo, "src/typechecker/mod.rs")?;
+    let f = find::func(&tc, "declare_context", None)?;
+    in_order(
+        &toks(&f.block),
+        &[
+            "for field in&ctx.fields{let name=runtime.get_runtime_type(field.type_id).unwrap().name();",
+            "self.insert_context(Meta{id:MetaId(0),node:Identifier::from(field.name),},Type::Name(TypeName{name,arguments:Vec::new(),}),field.offset,)?;",
+        ],
+        "declare_context",
+    )?;
+    let f = find::func(&lower, "assign", Some("Lowerer"))?;
+    in_order(
+        &toks(&f.block),
+        &[
+            "mir::Value::Constant(name,ty)=>{let ptr_var=self.new_tmp(IrType::Pointer);self.emit_constant_address(ptr_var.clone(),name);if let Some(to)=to{self.call_clone_of(to,Location::Pointer{base:ptr_var,offset:0,},ty,);}return;}",
+            "mir::Value::Context(x)=>{let from=Location::Pointer{base:Var{scope:self.function_scope,kind:VarKind::Context,},offset:x,};if let Some(to)=to{self.call_clone_of(to,from,ty);}return;}",
+        ],
+        "Lowerer::assign",
+    )?;
+    o.push_str("\n/-! ### context fields and constants: macros/src/lib.rs, src/typechecker/mod.rs, src/lir/lower.rs -/\n/-- a context field is read (cloned) from `context pointer + offset_of!(Self, field)`, typed by the field's `TypeId`; a registered constant from the address of its stored transformed value, offset 0 -/\ndef contextFieldOffsetIsOffsetOf : Bool := true\ndef constantReadAtOffset : Nat := 0\n");
+
+    // -------------------------------------------------------------- discriminants
+    let ml = find::parse(repo, "src/mir/lower.rs")?;
+    o.push_str("\n/-! ### discriminants: src/mir/lower.rs (`?`, `for`), src/value/list.rs (`list_get`) -/\n");
+    let f = find::func(&ml, "question_mark", None)?;
+    let b = toks(&f.block);
+    let discr_of = |b: &str, lbl: &str, what: &str| -> Result<String, String> {
+        // self.emit_switch(discriminant, vec![(K, lbl)], Some(other))
+        let key = "self.emit_switch(discriminant,vec![(";
+        let p = pos(b, key, what)? + key.len();
+        let rest = &b[p..];
+        let e = rest.find(',').ok_or("switch literal")?;
+        let k = &rest[..e];
+        if !rest[e..].starts_with(&format!(",{lbl})]")) {
+            return Err(format!("{what}: switch target is not {lbl}"));
+        }
+        k.parse::<u64>().map_err(|_| format!("{what}: discriminant `{k}` is not a literal"))?;
+        Ok(k.to_string())
+    };
+    let k = discr_of(&b, "continue_lbl", "question_mark")?;
+    in_order(
+        &b,
+        &[
+            "let val=self.make_enum(ty,\"None\".into(),&[]);",
+            "projection:vec![Projection::VariantField(\"Some\".into(),0)],",
+        ],
+        "question_mark",
+    )?;
+    o.push_str(&format!(
+        "/-- `x?`: discriminant on which evaluation continues, the variant whose field 0 is read then, the variant returned otherwise -/\ndef questionMarkContinue : Nat := {k}\ndef questionMarkPayload : VName := .Some\ndef questionMarkReturn : VName := .None\n"
+    ));
+    let f = find::func(&ml, "r#for", None).or_else(|_| find::func(&ml, "for", None))?;
+    let b = toks(&f.block);
+    let k = discr_of(&b, "lbl_body", "for")?;
+    in_order(&b, &["let func_ref=self.find_method(TypeId::of::<ErasedList>(),\"get\");", "Some(lbl_cont),"], "for")?;
+    o.push_str(&format!("/-- `for`: discriminant of `list.get(i)` on which the body runs -/\ndef forBodyDiscriminant : Nat := {k}\n"));
+    let vl = find::parse(repo, "src/value/list.rs")?;
+    let f = find::func(&vl, "list_get", None)?;
+    let b = toks(&f.block);
+    let key = "out.cast::<u8>().write(";
+    let mut tags = vec![];
+    let mut at = 0usize;
+    while let Some(p) = b[at..].find(key) {
+        let st = at + p + key.len();
+        let e = b[st..].find(')').ok_or("list_get: write literal")? + st;
+        b[st..e].parse::<u64>().map_err(|_| format!("list_get: tag `{}` is not a literal", &b[st..e]))?;
+        tags.push((at + p, b[st..e].to_string()));
+        at = e;
+    }
+    let [prov, some, none] = &tags[..] else {
+        return Err(format!("list_get: expected three tag writes, found {}", tags.len()));
+    };
+    let some_arm = pos(&b, "Some(src)=>{", "list_get")?;
+    let none_arm = b.rfind("None=>{").ok_or("list_get: None arm")?;
+    let clone_at = pos(&b, "match raw.vtable.clone_fn{", "list_get")?;
+    if !(some_arm < prov.0 && prov.0 < clone_at && clone_at < some.0 && some.0 < none_arm && none_arm < none.0) {
+        return Err("list_get: tag writes are not (provisional, after the clone, miss)".into());
+    }
+    in_order(
+        &b,
+        &["let alignment=raw.vtable.align();", "let dst=unsafe{out.byte_add(offset)};"],
+        "list_get",
+    )?;
+    struct LetFinder(Option<Expr>, usize);
+    impl<'ast> syn::visit::Visit<'ast> for LetFinder {
+        fn visit_local(&mut self, l: &'ast syn::Local) {
+            if let (Pat::Ident(pi), Some(init)) = (&l.pat, &l.init) {
+                if pi.ident == "offset" {
+                    self.0 = Some((*init.expr).clone());
+                    self.1 += 1;
+                }
+            }
+            syn::visit::visit_local(self, l);
+        }
+    }
+    let mut lf = LetFinder(None, 0);
+    syn::visit::Visit::visit_block(&mut lf, &f.block);
+    if lf.1 != 1 {
+        return Err(format!("list_get: expected one `let offset = …`, found {}", lf.1));
+    }
+    let oexpr = lf.0.unwrap();
+    o.push_str(&format!(
+        "/-- `ffi::list_get`: tag written before the clone, after it (hit) and for a miss; the payload offset -/\ndef listGetProvisional : Nat := {}\ndef listGetSome : Nat := {}\ndef listGetNone : Nat := {}\ndef listGetOffset (alignment : Nat) : Nat := {}\n",
+        prov.1, some.1, none.1, arith(&oexpr)?
+    ));
+
+    o.push_str("\nend RotoV.Gen.BoundaryTables\n");
+    Ok(o)
+}
